@@ -112,7 +112,7 @@ func (s *Server) Rebalance() {
 	}
 
 	localConns := s.openSessions()
-	if localConns == 0 || localConns < int(s.config.Rebalance.MinConns) {
+	if localConns == 0 || uint(localConns) < s.config.Rebalance.MinConns {
 		s.logger.Debug(
 			"rebalance; skip; too few conns",
 			zap.Int("local_conns", localConns),
